@@ -112,7 +112,8 @@ class JSONValidator:
             if depth > self.max_depth:
                 return False, f"JSON depth exceeds limit ({depth} > {self.max_depth})"
             return True, None
-        except json.JSONDecodeError as e:
+        except (ValueError, RecursionError) as e:
+            # JSONDecodeError is a ValueError; oversized numbers and runaway nesting are invalid too
             return False, f"Invalid JSON: {e}"
 
     def _measure_depth(self, obj, current: int = 0) -> int:
